@@ -207,7 +207,8 @@ class Initiator(DataExchangeProtocol):
             pfb = DEP_REQ.PFB(pdu_type, nad is not None, did is not None, pni)
             return DEP_REQ(pfb, did, nad, data=None)
 
-        def RTOX(rtox, did, nad):
+        def RTOX(data, did, nad):
+            rtox = data[0] if data else 0
             if not 0 < rtox < 60:
                 error = "NFC-DEP RTOX must be in range 1 to 59"
                 raise nfc.clf.ProtocolError(error)
@@ -225,7 +226,7 @@ class Initiator(DataExchangeProtocol):
             res = self.send_dep_req_recv_dep_res(req, self.rwt, timeout)
             if res.pfb.fmt == DEP_RES.TimeoutExtension:
                 for i in range(3):
-                    req = RTOX(res.data[0], self.did, self.nad)
+                    req = RTOX(res.data, self.did, self.nad)
                     rwt = res.data[0] * self.rwt
                     log.warning("target requested %.3f sec more time", rwt)
                     res = self.send_dep_req_recv_dep_res(req, rwt, timeout)
@@ -254,7 +255,7 @@ class Initiator(DataExchangeProtocol):
             res = self.send_dep_req_recv_dep_res(req, self.rwt, timeout)
             if res.pfb.fmt == DEP_RES.TimeoutExtension:
                 for i in range(3):
-                    req = RTOX(res.data[0], self.did, self.nad)
+                    req = RTOX(res.data, self.did, self.nad)
                     rwt = res.data[0] * self.rwt
                     log.warning("target requested %.3f sec more time", rwt)
                     res = self.send_dep_req_recv_dep_res(req, rwt, timeout)
@@ -579,7 +580,8 @@ class Target(DataExchangeProtocol):
         res = RTOX(rtox, self.did, self.nad)
         req = self.send_dep_res_recv_dep_req(res, deadline=time.time()+1)
         if type(req) == DEP_REQ and req.pfb.fmt == DEP_REQ.TimeoutExtension:
-            return req.data[0] & 0x3F
+            if req.data:
+                return req.data[0] & 0x3F
 
     def send_dep_res_recv_dep_req(self, dep_res, deadline):
         def ATN(did, nad):
